@@ -24,7 +24,7 @@ What holds (B = contract B of `Props/C01.lean` on the poll answers):
   is exceeded (`completed_overshoot_counterexample`).
 * `max_num_trials_finished = m` (completed + failed + stopped + stopping): the same three statements
   up to `mark_running_job_as_stopped` (`finished_before`, `finished_first`,
-  `finished_overshoot_partial`, `finished_overshoot_counterexample`); that call turns every trial still
+  `finished_overshoot_partial`, `finished_overshoot_wait`, `finished_overshoot_counterexample`); that call turns every trial still
   recorded as in progress into a stopped one (`finished_mark`), so at the end of `run()` the count is
   `≤ m + 2n` (`finished_end_partial`), `m + n` is exceeded without waiting
   (`finished_marked_counterexample`), and the `m + 2n` bound needs the running set not to be rebound
@@ -119,6 +119,15 @@ theorem finished_overshoot_partial (c : Cfg) (m : Nat) (hm : c.crit.maxFinished 
     (run (init c) as).status.numFinished ≤ m + c.nWorkers := by
   have := (finished_run c m hm as hB).g2 (by rw [run_cfg]; exact hw) (Or.inr hk)
   rwa [run_cfg] at this
+
+/-- **Overshoot with `wait_trial_completion_when_stopping`** (any configuration), up to the entry of the `finally` block
+(`ipPc`: the control points of the loop and `on_tuning_end`): never more than `m + 2·n_workers` finished trials. -/
+theorem finished_overshoot_wait (c : Cfg) (m : Nat) (hm : c.crit.maxFinished = some m) (as : List Ans)
+    (hB : Along BOk (init c) as) (hp : ipPc (run (init c) as).pc = true) :
+    (run (init c) as).status.numFinished ≤ m + 2 * c.nWorkers := by
+  have := (finished_run c m hm as hB).g3 hp
+  rw [run_cfg] at this
+  exact Nat.le_trans (by rw [numFinished_eq, numIn_eq]; exact cnt_le_psi _ _ _) this
 
 /-- with `wait_trial_completion_when_stopping=True` the bound `m + n_workers` is exceeded before the mark already
 (same answers as `completed_overshoot_counterexample`; the state is the entry of the `finally` block) -/
@@ -218,12 +227,12 @@ theorem evals_workers_counterexample :
 /-- with `wait_trial_completion_when_stopping=True` the results of later polls add up: 4 reported results, the last
 poll delivered 2, `m = 0` -/
 theorem evals_wait_counterexample :
-    let c : Cfg := { nWorkers := 2, maxFailures := 1, wait := true, crit := { maxEvals := some 0 } }
-    (run (init c) (Witness.twoPrefix ++ Witness.twoWaitRest)).pc = .done ∧
-    (run (init c) (Witness.twoPrefix ++ Witness.twoWaitRest)).err = none ∧
-    (run (init c) (Witness.twoPrefix ++ Witness.twoWaitRest)).status.overall.count = 4 ∧
-    (run (init c) (Witness.twoPrefix ++ Witness.twoWaitRest)).allRes.length = 2 := by
-  decide +kernel
+    Witness.ewCfg.wait = true ∧ Witness.ewCfg.crit.maxEvals = some 0 ∧ Witness.ewCfg.nWorkers = 2 ∧
+    (run (init Witness.ewCfg) (Witness.twoPrefix ++ Witness.twoWaitRest)).pc = .done ∧
+    (run (init Witness.ewCfg) (Witness.twoPrefix ++ Witness.twoWaitRest)).err = none ∧
+    (run (init Witness.ewCfg) (Witness.twoPrefix ++ Witness.twoWaitRest)).status.overall.count = 4 ∧
+    (run (init Witness.ewCfg) (Witness.twoPrefix ++ Witness.twoWaitRest)).allRes.length = 2 := by
+  refine ⟨rfl, rfl, rfl, ?_, ?_, ?_, ?_⟩ <;> decide +kernel
 
 /-! ### concrete instances: the hypotheses are satisfiable and the bounds are attained -/
 
